@@ -98,5 +98,95 @@ func fanoutBalanced(p *Prog, r *Report, R, key string, f *F, body map[*ssa.Basic
 	okS := len(sends) == 1 && len(sends[0].Args) == 2 && sends[0].Args[0] == msg && sends[0].Args[1] == "nonblocking"
 	r.Check(len(clones) == 1 && okS && clones[0].In.Block() == sends[0].In.Block(), R, key+"/clone-then-try-send", sends.Pos(p), "one Clone and one non-blocking send per entry", "the fan-out does not (Clone; non-blocking send) once per entry: "+argsOf(sends))
 	r.Check(len(frees) == 1 && hasAtom(frees[0].Guard, "select#0 != 0"), R, key+"/full-queue-drops-copy", frees.Pos(p), "when the entry's queue is full the copy is released (the sender never blocks)", "a full queue does not release the copy")
+	if len(sends) == 1 {
+		fanoutNoBypass(p, r, R, key, sends[0].In, nil, "")
+	}
 	r.Check(len(outFrees) >= 1, R, key+"/own-reference-released", outFrees.Pos(p), "the sender's own reference is released after the loop", "the sender's own reference is not released after the fan-out")
+}
+
+// loopBody: the natural loop (header + blocks reaching a latch) of the innermost loop
+// containing b; nil if b is not in a loop.
+func loopBody(b *ssa.BasicBlock) (*ssa.BasicBlock, map[*ssa.BasicBlock]bool) {
+	head := innermostLoopHead(b, nil)
+	if head == nil {
+		return nil, nil
+	}
+	body := map[*ssa.BasicBlock]bool{head: true}
+	var stack []*ssa.BasicBlock
+	for _, t := range head.Preds {
+		if head.Dominates(t) {
+			stack = append(stack, t)
+		}
+	}
+	for len(stack) > 0 {
+		x := stack[len(stack)-1]
+		stack = stack[:len(stack)-1]
+		if body[x] {
+			continue
+		}
+		body[x] = true
+		stack = append(stack, x.Preds...)
+	}
+	return head, body
+}
+
+// fanoutNoBypass: in the innermost loop around `at` (the per-entry delivery attempt), every
+// iteration reaches `at` unless it takes an edge whose condition is one of the declared
+// skip conditions (e.g. "this entry is the source pipe").  A path from the loop head
+// back to the loop head that avoids `at` under any other condition means some entries are
+// silently passed over: the table is visited, but the message is not offered.
+func fanoutNoBypass(p *Prog, r *Report, R, key string, at ssa.Instruction, allowed func(atom string) bool, what string) {
+	head, body := loopBody(at.Block())
+	if head == nil {
+		r.Bad(R, key+"/offered-to-every-entry", p.InstrPos(at), "ANCHOR-MISSING: the delivery attempt is not inside a loop")
+		return
+	}
+	target := at.Block()
+	// enumerate simple paths head -> ... -> head inside body avoiding target
+	var bad []string
+	var path []string
+	seen := map[*ssa.BasicBlock]bool{}
+	var walk func(b *ssa.BasicBlock, okSkip bool)
+	walk = func(b *ssa.BasicBlock, okSkip bool) {
+		if len(bad) > 0 {
+			return
+		}
+		for i, s := range b.Succs {
+			if !body[s] || s == target {
+				continue
+			}
+			atom := ""
+			if iff, ok := b.Instrs[len(b.Instrs)-1].(*ssa.If); ok {
+				atom = NormAtom(iff.Cond, i == 0)
+			}
+			sk := okSkip || (atom != "" && allowed != nil && allowed(atom))
+			if s == head {
+				if !sk {
+					pp := append(append([]string{}, path...), atom)
+					bad = append(bad, strings.Join(nonEmpty(pp), " && ")+" (back to the loop head from "+p.InstrPos(b.Instrs[len(b.Instrs)-1])+")")
+				}
+				continue
+			}
+			if seen[s] {
+				continue
+			}
+			seen[s] = true
+			path = append(path, atom)
+			walk(s, sk)
+			path = path[:len(path)-1]
+			seen[s] = false
+		}
+	}
+	walk(head, false)
+	r.Check(len(bad) == 0, R, key+"/offered-to-every-entry", p.InstrPos(at), "every iteration reaches the delivery attempt"+what, "an iteration of the fan-out loop can pass over an entry without attempting delivery, under a condition that is not a declared skip: "+strings.Join(bad, "; "))
+}
+
+func nonEmpty(xs []string) []string {
+	var out []string
+	for _, x := range xs {
+		if x != "" {
+			out = append(out, x)
+		}
+	}
+	return out
 }
